@@ -118,6 +118,11 @@ def check(ctx):
         out = os.path.join(d, "refusal.ndjson")
         rc, log, to = ctx.go_run(drvn, "TestVerifCacheRefusal", timeout=600, env={"VERIF_OUT": out, "VERIF_PROBE_MS": 150 if thorough else 80})
         if rc != 0 or to:
+            m = re.search(r"fatal error: concurrent map[^\n]*", log)
+            if m:
+                ctx.violation("%s: the process died while goroutines were held inside / probing the cache's critical sections: %s" % (name, m.group(0)),
+                              {"log": log[-2500:]}, key=proto + ":race")
+                continue
             raise vlib.Infra("refusal probe driver failed:\n" + log[-2000:])
         probes = vlib.read_ndjson(out)
         for p in probes:
